@@ -15,13 +15,14 @@ Forms == { "plain",        \* A { id: 1, x: 2.5, s: "a b" }
            "at_ms",        \* @250ms A { id: 1 }
            "at_only",      \* @2s
            "jsonl",        \* {"event_type": "A", "id": 1}
+           "at_jsonl",     \* @1s {"event_type": "A", "id": 1}
            "comment",      \* # a comment
            "comment2",     \* // a comment
            "blank",
            "indented",     \*    A { id: 1 }
            "nested",       \* A { a: [1, 2], m: { k: "v" } }
            "bad" }         \* A { id:
-Produces(f) == f \in {"plain", "plain_semi", "empty_body", "no_body", "at_s", "at_ms", "jsonl", "indented", "nested"}
+Produces(f) == f \in {"plain", "plain_semi", "empty_body", "no_body", "at_s", "at_ms", "jsonl", "at_jsonl", "indented", "nested"}
 Rejects(f) == f = "bad"
 Meaning(file) == SelectSeq(file, Produces)
 VARIABLE file
